@@ -109,7 +109,7 @@ def code_or_none(x):
     return "none" if (x == -math.inf) else str(fcode(x))
 
 
-def make_model(dims, sigma=1.0, seed=0, ties=False, cut=False, offset=0.0, angle=False):
+def make_model(dims, sigma=1.0, seed=0, ties=False, cut=False, offset=0.0, angle=False, lcut=False):
     """Gaussian likelihood in a [-4,4]^d box with a flat prior; unit-hypercube maps for the importance sampler.
     `ties`: outside radius 1 the likelihood is quantised (many exactly equal values among the early points);
     `cut`: the prior is zero on part of the box (x0 + x1 > 2): log_prior = -inf inside the bounds, a legal constrained model;
@@ -143,7 +143,13 @@ def make_model(dims, sigma=1.0, seed=0, ties=False, cut=False, offset=0.0, angle
                 out = out - 0.5 * ((x[n] - m) / self.sigma) ** 2
             if ties:
                 out = np.where(out < -0.5, -np.ceil(-out * 2.0) / 2.0, out)
-            return out - dims * math.log(self.sigma) + offset
+            out = out - dims * math.log(self.sigma) + offset
+            if lcut:
+                # the likelihood is exactly zero on part of the prior support (a hard truncation): such samples are drawn,
+                # counted and returned like any other (seeded change C05-eB: dropped at finalise)
+                with np.errstate(all="ignore"):
+                    out = np.where(x[self.names[0]] < -1.0, -np.inf, out)
+            return out
 
         def to_unit_hypercube(self, x):
             y = x.copy()
@@ -806,6 +812,8 @@ INS_CONFIGS = [
     dict(dims=2, nlive=50, levels=3, strict=False, replace_all=False, draw_constant=True, iid=True, reparam=None, q=0.5, min_samples=20, flows="tilt", offset=-1500.0),
     dict(dims=2, nlive=40, levels=3, strict=False, replace_all=False, draw_constant=True, iid=False, reparam="logit", q=0.5, min_samples=10, flows="tilt", offset=-5000.0),
     dict(dims=2, nlive=40, levels=3, strict=True, replace_all=False, draw_constant=True, iid=True, reparam=None, q=0.6, min_samples=10, flows="tilt", offset=800.0, resume=2),
+    dict(dims=2, nlive=60, levels=3, strict=False, replace_all=False, draw_constant=True, iid=True, reparam=None, q=0.5, min_samples=20, flows="tilt", lcut=True),
+    dict(dims=2, nlive=50, levels=3, strict=True, replace_all=False, draw_constant=True, iid=False, reparam="logit", q=0.5, min_samples=20, flows="neural", lcut=True),
 ]
 
 
@@ -845,7 +853,7 @@ def run_ins(cfg, seed):
     try:
         with quiet(), ctxm, mock.patch.object(INS, "add_new_proposal_weight", add_new_proposal_weight), \
                 mock.patch.object(INS, "checkpoint", checkpoint):
-            model = make_model(cfg["dims"], 1.0, seed, False, bool(cfg.get("cut")), float(cfg.get("offset", 0.0)))
+            model = make_model(cfg["dims"], 1.0, seed, False, bool(cfg.get("cut")), float(cfg.get("offset", 0.0)), False, bool(cfg.get("lcut")))
             fs = FlowSampler(model, output=out, resume=bool(cfg.get("resume")), **kw)
             try:
                 try:
@@ -854,13 +862,13 @@ def run_ins(cfg, seed):
                     res["killed_at"] = int(fs.ns.iteration)
                     kept = [d_ for d_ in draws if d_[0] < fs.ns.iteration]
                     draws[:] = kept
-                    model = make_model(cfg["dims"], 1.0, seed, False, bool(cfg.get("cut")), float(cfg.get("offset", 0.0)))
+                    model = make_model(cfg["dims"], 1.0, seed, False, bool(cfg.get("cut")), float(cfg.get("offset", 0.0)), False, bool(cfg.get("lcut")))
                     fs = FlowSampler(model, output=out, resume=True, **kw)
                     res["resumed"] = bool(fs.ns.resumed)
                     fs.run(plot=False, save=True)
                 if cfg.get("rerun"):
                     # the finished run is resumed from its final checkpoint and run again
-                    model = make_model(cfg["dims"], 1.0, seed, False, bool(cfg.get("cut")), float(cfg.get("offset", 0.0)))
+                    model = make_model(cfg["dims"], 1.0, seed, False, bool(cfg.get("cut")), float(cfg.get("offset", 0.0)), False, bool(cfg.get("lcut")))
                     fs = FlowSampler(model, output=out, resume=True, **kw)
                     res["resumed"] = bool(fs.ns.resumed)
                     res["rerun_finalised_at_resume"] = bool(fs.ns.finalised)
